@@ -159,4 +159,8 @@ def run(ctx, rep) -> None:
     rep.attempt("shape_guards", shape_guards, ctx, rep, "C11.1")
     rep.attempt("eigen_shift", eigen_shift, ctx, rep, "C11.2")
     rep.attempt("retry_rule", retry_rule, ctx, rep, "C11.3")
+    from .arith import eigen_root_arithmetic
+
+    rep.rule("C11.4", "assembly of the eigen inverse root from the shifted eigenvalues: X = (Q * lambda^(-1/root)) @ Q^T with the decomposed matrix being A (or A + eps I) (exact term comparison)")
+    rep.attempt("eigen_root_arithmetic", eigen_root_arithmetic, ctx, rep, "C11.4")
     rep.assume("finiteness, symmetry, the eigenvalue bound, commutation and equivariance of the result are numerical and NOT decided; C11.2 decides the scalar recurrence applied to each eigenvalue")
